@@ -32,6 +32,7 @@ type replayInfo struct {
 	resConsts []string
 	resTypes  []types.Type
 	inputs    []replayInput
+	observes  []replayInput
 	heapDep   bool
 	why       string
 }
@@ -69,8 +70,7 @@ func (g *Gen) prepareReplay() {
 		}
 	}
 	ri.entryCtx = len(g.defs)
-	ri.heapDep = len(c.Assigns) > 0 || c.AssignsAll
-	// result constants and exported ensures over them (heap = entry heap)
+	// result constants and exported ensures over them
 	rs := fn.Signature.Results()
 	for i := 0; i < rs.Len(); i++ {
 		t := rs.At(i).Type()
@@ -78,12 +78,45 @@ func (g *Gen) prepareReplay() {
 		ri.resConsts = append(ri.resConsts, rc)
 		ri.resTypes = append(ri.resTypes, t)
 	}
+	// post-state: the locations in `assigns` get fresh contents (as at a call site); `replay observe`
+	// clauses pin them to what the real run leaves there
+	saveCur := g.cur
+	g.cur = copyMap(g.cur)
+	penv := g.contractEnv()
+	penv.oldEntry, penv.inOld = true, true
+	nAssign := 0
+	if !c.AssignsAll {
+		for _, tg := range g.assignTargets(c, penv) {
+			g.havocTarget(tg)
+			nAssign++
+		}
+	}
 	env := g.contractEnv()
 	env.oldEntry = true
 	g.bindResults(env, fn.Signature, func(i int) string { return ri.resConsts[i] })
 	for _, e := range c.Ensures {
 		ri.ensures = append(ri.ensures, g.transBool(e.E, env))
 	}
+	nObs := 0
+	for _, l := range c.Replay {
+		if strings.HasPrefix(l, "observe ") {
+			// observe <contract expr> = <Go expr over recv / results>
+			rest := strings.TrimPrefix(l, "observe ")
+			i := strings.Index(rest, " = ")
+			if i < 0 {
+				continue
+			}
+			e, err := ParseExpr(rest[:i])
+			if err != nil {
+				continue
+			}
+			v := g.trans(e, env)
+			ri.observes = append(ri.observes, replayInput{expr: strings.TrimSpace(rest[i+3:]), term: v.t, typ: v.gt})
+			nObs++
+		}
+	}
+	ri.heapDep = c.AssignsAll || (nAssign > 0 && nObs == 0)
+	g.cur = saveCur
 	ri.extraDefs = append([]string{}, g.defs[ri.entryCtx:]...)
 	g.defs = g.defs[:ri.entryCtx]
 }
@@ -287,8 +320,32 @@ func runReplay(w *World, o *Oblig, dir string, timeout int) (rr replayResult) {
 	}
 	// extra terms requested by a `replay recv` constructor
 	recvTerms := map[string]string{}
+	recvBytes := map[string][]string{} // name -> [len term, element terms...]
 	if g.topC != nil {
 		for _, l := range g.topC.Replay {
+			if strings.HasPrefix(l, "bytes ") {
+				// bytes NAME = <contract expression of type []byte> (entry state)
+				rest := strings.TrimPrefix(l, "bytes ")
+				if i := strings.Index(rest, "="); i > 0 {
+					name := strings.TrimSpace(rest[:i])
+					if e, err := ParseExpr(rest[i+1:]); err == nil {
+						func() {
+							defer func() { recover() }()
+							env := &TEnv{g: g, vars: g.topParams, pkg: g.topC.Pkg, oldEntry: true, inOld: true}
+							nd := len(g.defs)
+							v := g.trans(e, env)
+							g.defs = g.defs[:nd]
+							c, _ := g.memComp(types.Typ[types.Uint8])
+							ts := []string{"(len " + v.t + ")"}
+							for k := 0; k < maxBytes; k++ {
+								ts = append(ts, fmt.Sprintf("(select (select %s (base %s)) %s)", g.entry[c], v.t, g.addIdx("(off "+v.t+")", g.idx(int64(k)))))
+							}
+							recvBytes[name] = ts
+							terms = append(terms, ts...)
+						}()
+					}
+				}
+			}
 			if strings.HasPrefix(l, "term ") {
 				// term name = contract expression
 				rest := strings.TrimPrefix(l, "term ")
@@ -312,7 +369,30 @@ func runReplay(w *World, o *Oblig, dir string, timeout int) (rr replayResult) {
 	if len(terms) == 0 {
 		terms = []string{"true"}
 	}
-	mv := modelValues(o, o.Solver, terms, timeout)
+	// prefer a small counterexample: byte strings of at most 64 bytes; fall back to any model
+	var small strings.Builder
+	addSmall := func(lenTerm string) {
+		fmt.Fprintf(&small, "(assert (and %s %s))\n", g.le(g.idx(0), lenTerm, true), g.le(lenTerm, g.idx(64), true))
+	}
+	for _, a := range args {
+		if a.kind == "bytes" {
+			addSmall(a.terms[0])
+		}
+	}
+	for _, ts := range recvBytes {
+		addSmall(ts[0])
+	}
+	var mv map[string]string
+	if small.Len() > 0 {
+		for _, s := range []string{o.Solver, "z3-new", "cvc5"} {
+			if mv = modelValuesExtra(o, s, terms, timeout, small.String()); mv != nil {
+				break
+			}
+		}
+	}
+	if mv == nil {
+		mv = modelValues(o, o.Solver, terms, timeout)
+	}
 	if mv == nil {
 		rr.Reason = "could not obtain model values from " + o.Solver
 		return
@@ -400,6 +480,25 @@ func runReplay(w *World, o *Oblig, dir string, timeout int) (rr replayResult) {
 		for _, l := range g.topC.Replay {
 			if strings.HasPrefix(l, "recv ") {
 				ex := strings.TrimPrefix(l, "recv ")
+				for name, ts := range recvBytes {
+					ln, _, ok := smtInt(mv[ts[0]])
+					if !ok || ln.Sign() < 0 || ln.Cmp(big.NewInt(maxBytes)) > 0 {
+						rr.Reason = fmt.Sprintf("model length of %s (%s) is outside the replayable range", name, mv[ts[0]])
+						return
+					}
+					pins = append(pins, fmt.Sprintf("(assert (= %s %s))", ts[0], mv[ts[0]]))
+					var bs []string
+					for i := 0; i < int(ln.Int64()); i++ {
+						b, _, _ := smtInt(mv[ts[1+i]])
+						if b == nil {
+							b = big.NewInt(0)
+						}
+						bs = append(bs, b.String())
+						pins = append(pins, fmt.Sprintf("(assert (= %s %s))", ts[1+i], mv[ts[1+i]]))
+					}
+					rr.Model[name] = "[" + strings.Join(bs, " ") + "]"
+					ex = strings.ReplaceAll(ex, "$"+name, "[]byte{"+strings.Join(bs, ", ")+"}")
+				}
 				for name, t := range recvTerms {
 					n, _, ok := smtInt(mv[t])
 					val := mv[t]
@@ -465,8 +564,26 @@ func runReplay(w *World, o *Oblig, dir string, timeout int) (rr replayResult) {
 		case types.TypeString(t, nil) == "error":
 			fmt.Fprintf(&sb, "\tout[\"r%d\"] = fmt.Sprint(r%d == nil)\n\tif r%d != nil {\n\t\tout[\"r%d_msg\"] = r%d.Error()\n\t}\n", i, i, i, i, i)
 		default:
-			fmt.Fprintf(&sb, "\t_ = r%d\n", i)
+			switch u := t.Underlying().(type) {
+			case *types.Slice:
+				fmt.Fprintf(&sb, "\tout[\"r%d_len\"] = fmt.Sprint(len(r%d))\n", i, i)
+			case *types.Array:
+				if b, ok := u.Elem().Underlying().(*types.Basic); ok && b.Kind() == types.Uint8 {
+					fmt.Fprintf(&sb, "\tout[\"r%d_hex\"] = fmt.Sprintf(\"%%x\", r%d[:])\n", i, i)
+				} else {
+					fmt.Fprintf(&sb, "\t_ = r%d\n", i)
+				}
+			default:
+				if isString(t) {
+					fmt.Fprintf(&sb, "\tout[\"r%d_len\"] = fmt.Sprint(len(r%d))\n", i, i)
+				} else {
+					fmt.Fprintf(&sb, "\t_ = r%d\n", i)
+				}
+			}
 		}
+	}
+	for i, ob := range ri.observes {
+		fmt.Fprintf(&sb, "\tout[\"o%d\"] = fmt.Sprint(%s)\n", i, ob.expr)
 	}
 	sb.WriteString("}\n")
 	rr.TestSrc = sb.String()
@@ -481,6 +598,10 @@ func runReplay(w *World, o *Oblig, dir string, timeout int) (rr replayResult) {
 		return
 	}
 	if p, ok := obs["panic"]; ok {
+		if strings.Contains(fmt.Sprint(p), "verifhook: assumption violated") {
+			rr.Reason = "the model input is outside the harness's assumed domain when run for real (not reproduced)"
+			return
+		}
 		rr.Confirmed = true
 		rr.Reason = fmt.Sprintf("the real code panics on the model input: %v", p)
 		return
@@ -502,8 +623,19 @@ func runReplay(w *World, o *Oblig, dir string, timeout int) (rr replayResult) {
 		t := rs.At(i).Type()
 		ov, ok := obs[fmt.Sprintf("r%d", i)].(string)
 		if !ok {
-			rr.Reason = fmt.Sprintf("result %d of type %s cannot be observed", i, t)
-			return
+			// partially observable results: length of slices/strings, bytes of byte arrays; anything
+			// else stays unpinned (confirmation then needs the postconditions to fail regardless of it)
+			if lv, ok := obs[fmt.Sprintf("r%d_len", i)].(string); ok {
+				n, _ := new(big.Int).SetString(lv, 10)
+				pins = append(pins, fmt.Sprintf("(assert (= (len %s) %s))", ri.resConsts[i], g.numBig(n, types.Typ[types.Int])))
+			}
+			if hv, ok := obs[fmt.Sprintf("r%d_hex", i)].(string); ok {
+				for k := 0; k+1 < len(hv); k += 2 {
+					b, _ := new(big.Int).SetString(hv[k:k+2], 16)
+					pins = append(pins, fmt.Sprintf("(assert (= (select %s %s) %s))", ri.resConsts[i], g.idx(int64(k/2)), g.numBig(b, types.Typ[types.Uint8])))
+				}
+			}
+			continue
 		}
 		switch {
 		case isBool(t):
@@ -517,6 +649,27 @@ func runReplay(w *World, o *Oblig, dir string, timeout int) (rr replayResult) {
 			} else {
 				pins = append(pins, fmt.Sprintf("(assert (not (= %s 0)))", ri.resConsts[i]))
 			}
+		}
+	}
+	for i, ob := range ri.observes {
+		ov, ok := obs[fmt.Sprintf("o%d", i)].(string)
+		if !ok || ob.typ == nil {
+			rr.Reason = fmt.Sprintf("observation %s is missing", ob.expr)
+			return
+		}
+		switch {
+		case isBool(ob.typ):
+			pins = append(pins, fmt.Sprintf("(assert (= %s %s))", ob.term, ov))
+		case isInteger(ob.typ):
+			n, okn := new(big.Int).SetString(ov, 10)
+			if !okn {
+				rr.Reason = "observation " + ob.expr + " is not an integer: " + ov
+				return
+			}
+			pins = append(pins, fmt.Sprintf("(assert (= %s %s))", ob.term, g.numBig(n, ob.typ)))
+		default:
+			rr.Reason = "observation " + ob.expr + " has an unsupported type"
+			return
 		}
 	}
 	var q strings.Builder
